@@ -6,6 +6,7 @@ import Driver.Suites.Build
 import SaModel.Build.Finish
 import SaModel.Build.Dec
 import SaModel.Spec.Interp
+import SaModel.Spec.Blame
 /-
 suite `hist` (C10): histories of push / extend / serialize-through-Serializer / build on one ArrayBuilder.
   agree : the model state machine (push / extend / serializeWith / buildArrays + takeRest) reproduces every
@@ -79,6 +80,7 @@ def handle (j : Json) : Except String Verdict := do
     let mut agree := true
     let mut c10 := "pass"
     let mut c16 := "pass"
+    let mut c18 := "pass"
     let mut sig := ""
     let mut why := ""
     let mut nbuilt := 0
@@ -97,6 +99,31 @@ def handle (j : Json) : Except String Verdict := do
         | .push row => st.batch ++ [row]
         | .extend _ rows | .ser _ rows => st.batch ++ rows
         | .build => st.batch
+      -- an operation that fails must fail with the same annotations in model and implementation (C18: also after
+      -- builds, when the builders have been reset), and the field must be a position Spec.blame allows
+      if res.cls == "err" && cls == "err" then
+        let ia := annOfImpl ((io.getObjVal? "err").toOption.getD Json.null)
+        let ma := res.ann
+        if !ma.isEmpty && ia != ma then
+          agree := false
+          if sig == "" then
+            sig := s!"hist/ann/{opName op}/after-builds={if nbuilt == 0 then "0" else "N"}/{(ma.lookup "data_type").getD "-"}"
+            why := s!"op #{i} {opName op}: annotations: model {repr ma}, implementation {repr ia}"
+        let newRows := match op with
+          | .push row => [row]
+          | .extend _ rows | .ser _ rows => rows
+          | .build => []
+        let firstBadRow := newRows.find? (fun r => !(interpRow ext fields r).isOk)
+        match firstBadRow with
+        | some row =>
+          let blamed := blameRow ext fields row
+          if !containsMalformed row && !blamed.isEmpty && !ma.isEmpty then
+            if ia.lookup "field" == none || !blamed.contains ((ia.lookup "field").getD "") then
+              c18 := "fail"
+              if sig == "" then
+                sig := s!"hist/C18/{opName op}/after-builds={if nbuilt == 0 then "0" else "N"}"
+                why := s!"op #{i}: blamed field {repr (ia.lookup "field")} not among {repr blamed}"
+        | none => pure ()
       if res.cls != cls then
         agree := false
         if sig == "" then
@@ -148,6 +175,6 @@ def handle (j : Json) : Except String Verdict := do
       i := i + 1
     let tags := tags0 ++ [s!"builds:{nbuilt}", if phys then "phys-eq" else "phys-diff"]
     let tags := if nbuilt == 0 then "trivial" :: tags else tags
-    return { agree := agree, spec := [("C10", c10), ("C16", c16)], tags := tags, sig := sig, why := why }
+    return { agree := agree, spec := [("C10", c10), ("C16", c16), ("C18", c18)], tags := tags, sig := sig, why := why }
 
 end Driver.Suites.Hist
